@@ -1,5 +1,5 @@
 (** A concrete instance of [run_setup] and two reachable states of its run (non-vacuity of the whole-run theorems). *)
-From TB Require Import Base Decimal BencodeModel TorrentModel LayoutModel PathModel FsModel SolverModel FinderModel RunModel SolverProofs FsProofs SystemModel SystemProofs GlueProofs.
+From TB Require Import Base Decimal BencodeModel TorrentModel LayoutModel PathModel FsModel SolverModel FinderModel RunModel SolverProofs FsProofs SystemModel SystemProofs GlueProofs EstablishProofs.
 Local Open Scope N_scope.
 Definition Hid (b : list N) : list N := b.
 Definition ex_t : torrent := {| t_name := [97]; t_length := Some 2; t_files := None; t_piece_length := 2; t_pieces := [[7;8]]; t_info_hash := [1] |}.
@@ -39,4 +39,20 @@ Example ex_reach_cut : exists s, sreach {| s_fs := ex_f0; s_pool := ex_pool |} s
 Proof.
   destruct (sys_run {| s_fs := ex_f0; s_pool := ex_pool |} ex_sched_cut) as [s|] eqn:Er; [|vm_compute in Er; discriminate].
   exists s. split; [exact (sys_run_reach _ _ _ Er)|]. vm_compute in Er. inversion Er; subst. split; reflexivity.
+Qed.
+
+(** The same complete run as a run of the fault-free sub-system (reads answered by the file system). *)
+Example ex_freach : exists s, EstablishProofs.freach {| s_fs := ex_f0; s_pool := ex_pool |} s /\ nth_error (s_pool s) 0 = Some (Ret Success).
+Proof.
+  eexists. split.
+  - unfold ex_pool, ex_ws, ex_es. vm_compute populate. vm_compute work_of. cbn [map].
+    eapply EstablishProofs.fr_step. { eapply (fs_read_ _ _ 0%nat); vm_compute; reflexivity. }
+    vm_compute. eapply EstablishProofs.fr_step. { eapply (fs_lock _ _ 0%nat); vm_compute; reflexivity. }
+    vm_compute. eapply EstablishProofs.fr_step. { eapply (fs_mut _ _ 0%nat); vm_compute; reflexivity. }
+    vm_compute. eapply EstablishProofs.fr_step. { eapply (fs_mut _ _ 0%nat); vm_compute; reflexivity. }
+    vm_compute. eapply EstablishProofs.fr_step. { eapply (fs_mut _ _ 0%nat); vm_compute; reflexivity. }
+    vm_compute. eapply EstablishProofs.fr_step. { eapply (fs_mut _ _ 0%nat); vm_compute; reflexivity. }
+    vm_compute. eapply EstablishProofs.fr_step. { eapply (fs_unlock _ _ 0%nat); vm_compute; reflexivity. }
+    vm_compute. apply EstablishProofs.fr_refl.
+  - reflexivity.
 Qed.
